@@ -123,6 +123,40 @@ def _macro_int(src, name, env=None):
     return int(eval(v, {"__builtins__": {}}))  # arithmetic over literals only (checked by the regex)
 
 
+# (C file, C function) pairs whose assigned state fields are compared with the Rust counterpart (rules/refwrites.py)
+ASSIGNED_IN = [
+    ("deflate.c", "fill_window"), ("deflate.c", "lm_init"), ("deflate.c", "lm_set_level"), ("deflate.c", "deflateResetKeep"),
+    ("deflate_fast.c", "deflate_fast"), ("deflate_slow.c", "deflate_slow"), ("deflate_medium.c", "deflate_medium"),
+    ("deflate_quick.c", "deflate_quick"), ("deflate_rle.c", "deflate_rle"), ("deflate_huff.c", "deflate_huff"),
+    ("deflate_stored.c", "deflate_stored"), ("deflate.c", "deflateParams"), ("deflate.c", "deflateSetDictionary"),
+    ("deflate.c", "deflateTune"), ("deflate.c", "deflatePrime"), ("inflate.c", "inflateResetKeep"), ("inflate.c", "inflateSync"),
+    ("inflate.c", "inflateSetDictionary"), ("inflate.c", "inflatePrime"), ("inflate.c", "inflateReset2"),
+]
+
+
+def _c_function_body(src, name):
+    m = re.search(r"^[^\n;{}]*\b(?:PREFIX\d?\(%s\)|%s)\s*\([^;{]*\)\s*\{" % (name, name), src, flags=re.M)
+    if not m:
+        return None
+    i, depth = m.end(), 1
+    while depth and i < len(src):
+        if src[i] == "{":
+            depth += 1
+        elif src[i] == "}":
+            depth -= 1
+        i += 1
+    return src[m.end():i]
+
+
+def _assigned_fields(body):
+    out = set()
+    for m in re.finditer(r"\b(?:s|state|strm)->(\w+)\s*(?:=(?!=)|\+=|-=|\|=|&=|\^=|<<=|>>=|\+\+|--)", body):
+        out.add(m.group(1))
+    for m in re.finditer(r"(?:\+\+|--)\s*(?:s|state|strm)->(\w+)", body):
+        out.add(m.group(1))
+    return sorted(out)
+
+
 def extract(d):
     ref = {"files": {}}
 
@@ -223,6 +257,17 @@ def extract(d):
         except OSError:
             heur[hid] = False
     ref["heuristics"] = heur
+    # state fields assigned by selected functions
+    asg = {}
+    for f, name in ASSIGNED_IN:
+        try:
+            raw = _read(d, f)
+            ref["files"][f] = hashlib.sha256(raw.encode()).hexdigest()
+            body = _c_function_body(_strip_comments(raw), name)
+            asg["%s:%s" % (f, name)] = _assigned_fields(body) if body is not None else None
+        except OSError:
+            asg["%s:%s" % (f, name)] = None
+    ref["assigned_fields"] = asg
     # crc tables
     try:
         cb = src("crc32_braid_tbl.h")
